@@ -44,13 +44,24 @@ def distance_segment_to_segment(f1, f2, t1, t2):
     x3, y3 = t1
     x4, y4 = t2
     n = ((y4 - y3) * (x2 - x1) - (x4 - x3) * (y2 - y1))
-    if np.allclose([n], [0], rtol=0):
-        # parallel
-        is_parallel = True
-        n = 0.0001  # TODO: simulates a point far away
-    else:
-        is_parallel = False
-    u_f = ((x4 - x3) * (y1 - y3) - (y4 - y3) * (x1 - x3)) / n
+    lf2 = (x2 - x1) ** 2 + (y2 - y1) ** 2
+    lt2 = (x4 - x3) ** 2 + (y4 - y3) ** 2
+    if n * n <= 1e-16 * lf2 * lt2:
+        # Parallel (or a zero-length segment): there is no intersection point,
+        # the minimal distance is reached in one of the four end points.
+        best = None
+        for u_f, pf in ((0.0, (x1, y1)), (1.0, (x2, y2))):
+            pt, u_t = project(t1, t2, pf)
+            d = distance(pf, pt)
+            if best is None or d < best[0]:
+                best = (d, pf, pt, u_f, u_t)
+        for u_t, pt in ((0.0, (x3, y3)), (1.0, (x4, y4))):
+            pf, u_f = project(f1, f2, pt)
+            d = distance(pf, pt)
+            if d < best[0]:
+                best = (d, pf, pt, u_f, u_t)
+        return best
+    u_f =((x4 - x3) * (y1 - y3) - (y4 - y3) * (x1 - x3)) / n
     u_t = ((x2 - x1) * (y1 - y3) - (y2 - y1) * (x1 - x3)) / n
     xi = x1 + u_f * (x2 - x1)
     yi = y1 + u_f * (y2 - y1)
